@@ -172,7 +172,8 @@ def run(tier, selftest=False, only=None):
     if tier == "quick" and len(cases) > 25000:
         cases = rng.sample(cases, 25000)
     for c in cases:
-        check_case(rep, c, rng, systems)
+        with rep.guard("coarse", {"shape": c["shape"], "env": c["env"], "map": c["map"]}):
+            check_case(rep, c, rng, systems)
         if len(rep.violations) > 40:
             break
     invalid_by_form(rep, rng)
